@@ -358,10 +358,11 @@ ChainId(hi, n, s) == <<100 + hi, n * 16 + s>>
 \* step s (re-)initialises the channel object: next antenna partition (equal totals), new channel matrix,
 \* precoders, filters, powers (through set_precoders), noise; the path loss is either set anew or - every
 \* other time - simply kept from the previous step (set_pathloss is not called again)
-InitCase(prev, hi, n, s) ==
+\* (r: redraw number - the first of four draws without an infinite SINR is taken, see FirstValid)
+InitCase(prev, hi, n, s, r) ==
   LET hc   == Chains[hi]
       p    == (CountOp(hc.ops, s, "reinit") % Len(hc.parts)) + 1
-      base == MkFrom(hc.parts[p], Start(100 + hi, n * 16 + s), TRUE, s = 1)
+      base == MkFrom(hc.parts[p], Start(100 + hi, (n * 16 + s) * 4 + r), TRUE, s = 1)
       keep == s > 1 /\ (n + (s \div 2)) % 2 = 0
   IN  [base EXCEPT !.id = ChainId(hi, n, s), !.chain = <<hi, n>>, !.step = s,
                    !.pl = IF keep THEN prev.pl ELSE base.pl,
@@ -378,7 +379,13 @@ PowerCase(prev, hi, n, s) ==
                                    ELSE IF kind = "scalar" THEN pw[Pk(st, prev.K + 1, Len(pw))] ELSE ROne]
   IN  [prev EXCEPT !.id = ChainId(hi, n, s), !.step = s, !.pa = pa,
                    !.op = [kind |-> "power", pl |-> "keep", pw |-> kind]]
-ChainCase(prev, hi, n, s) == IF Chains[hi].ops[s] = "power" THEN PowerCase(prev, hi, n, s) ELSE InitCase(prev, hi, n, s)
+RECURSIVE FirstValid(_, _, _, _, _)
+FirstValid(prev, hi, n, s, r) ==
+  IF r >= 3 THEN r
+  ELSE LET c == InitCase(prev, hi, n, s, r)
+       IN  IF PowValid(c, PowTab(c, FullF(c), c.U, c.pe)) THEN r ELSE FirstValid(prev, hi, n, s, r + 1)
+ChainCase(prev, hi, n, s) == IF Chains[hi].ops[s] = "power" THEN PowerCase(prev, hi, n, s)
+                             ELSE InitCase(prev, hi, n, s, FirstValid(prev, hi, n, s, 0))
 
 \* what the caches of the real objects hold after the step (readers fill them)
 CacheAfter(c) ==
